@@ -8,7 +8,7 @@
 From Coq Require Import ZArith List Bool.
 From EV Require Import Base.Arith Gen.Brent Model.MpsMachine
   Proofs.MpsStep Proofs.MpsPhase Proofs.MpsSweep Proofs.MpsTdvpComplete Proofs.MpsTdvpStep
-  Proofs.MpsTdvpRun Proofs.MpsTdvpTrace Proofs.MpsTdvpN2.
+  Proofs.MpsTdvpRun Proofs.MpsTdvpTrace Proofs.MpsTdvpN2 Proofs.MpsRunLoop Proofs.MpsRunLoopCor.
 Import ListNotations.
 Open Scope Z_scope.
 
@@ -87,3 +87,35 @@ Theorem C02_fewer_than_two_sites_rejected :
   nthZ times 1 = Some t1 -> N < 2 ->
   mk_initial ar k N steps times etol maxsw onorm ounif oenergy same = Err 120.
 Proof. exact mk_initial_rejects_small. Qed.
+
+(* The same, for the loop MPSBackend._run actually executes (`while not impl.is_finished(): impl.progress()`,
+   modelled by [run] with a fuel bound): it terminates for every fuel >= #intervals*(2N-3), in a finished state,
+   with the closed-form trace; more fuel changes nothing; and the loop's result is always a finished state. *)
+Theorem C02_run_loop_terminates_with_trace :
+  forall (A : Type) (ar : Arith A) (n : nat) (t0 t1 : A) (rest : list A) (same : list bool)
+         onorm ounif oenergy etol maxsw,
+  (length (t1 :: rest) <= length same)%nat ->
+  exists s0 sf,
+    mk_initial ar TDVP (Z.of_nat n + 3) (1 + Z.of_nat (length rest)) (t0 :: t1 :: rest) etol maxsw
+               onorm ounif oenergy same = Ok s0 /\
+    (forall fuel, (length (t1 :: rest) * (2 * n + 3) <= fuel)%nat -> run ar fuel s0 = Ok sf) /\
+    is_finished sf = true /\
+    m_ev sf = rev (init_events A ar t1 ++ run_events A ar n 0 (a_ofZ ar 0) (t1 :: rest) same).
+Proof. exact tdvp_run_loop. Qed.
+
+Theorem C02_run_loop_two_sites :
+  forall (A : Type) (ar : Arith A) (t0 t1 : A) (rest : list A) (same : list bool) onorm ounif oenergy etol maxsw,
+  (length (t1 :: rest) <= length same)%nat ->
+  exists s0 sf,
+    mk_initial ar TDVP 2 (1 + Z.of_nat (length rest)) (t0 :: t1 :: rest) etol maxsw
+               onorm ounif oenergy same = Ok s0 /\
+    (forall fuel, (length (t1 :: rest) <= fuel)%nat -> run ar fuel s0 = Ok sf) /\
+    is_finished sf = true /\
+    m_ev sf = rev (init_events A ar t1 ++ run_events2 A ar 0 (a_ofZ ar 0) (t1 :: rest) same).
+Proof. exact tdvp_run_loop2. Qed.
+
+(* for every solver kind: the loop returns only finished states, and is the iteration of progress() *)
+Theorem C02_run_loop_is_iteration :
+  forall (A : Type) (ar : Arith A) (n : nat) (s sf : mstate A),
+  run ar n s = Ok sf -> is_finished sf = true /\ iter_progress ar n s = Ok sf.
+Proof. intros A ar n s sf H. split; [eapply run_result_finished; exact H | apply run_is_iter; exact H]. Qed.
